@@ -4,7 +4,8 @@ import copy
 import numpy as np
 import gens, ragidx
 
-EXTRA_READS = ["repr", "str", "iter", "ravel", "size", "shape", "tolist", "index", "ufunc", "reduce", "nonzero", "equals_self"]
+EXTRA_READS = ["repr", "str", "iter", "ravel", "size", "shape", "tolist", "index", "ufunc", "reduce", "nonzero", "equals_self",
+               "col_counts", "sum0", "mean0", "colvals", "max", "cumsum", "sort", "unique", "astype", "padded", "lengths"]
 
 
 def gen_program(rng, n_stmts, max_rows=4, max_len=4, with_assign=True, chain=False):
@@ -39,12 +40,12 @@ def gen_program(rng, n_stmts, max_rows=4, max_len=4, with_assign=True, chain=Fal
             if _ < n_deriv:
                 if rng.random() < 0.75:
                     x = live[-1]
-                kind = rng.choice(["select", "select", "select", "select", "add_scalar", "concat1", "sort", "alias"])
+                kind = rng.choice(["select", "select", "select", "select", "add_scalar", "concat1", "sort", "alias", "astype"])
             else:
-                kind = rng.choice(["assign", "assign", "poke"])
+                kind = rng.choice(["assign", "assign", "poke", "fill"])
         else:
-            kind = rng.choice(["select", "select", "select", "alias", "add_scalar", "add_arrays", "concat", "concat1", "sort", "cumsum", "diff",
-                               "read", "read", "read_idx", "read_sum", "read_meta"] + (["assign", "assign", "assign", "poke"] if with_assign else []))
+            kind = rng.choice(["select", "select", "select", "alias", "add_scalar", "add_arrays", "concat", "concat1", "astype", "sort", "cumsum", "diff",
+                               "read", "read", "read_idx", "read_sum", "read_meta", "read_col"] + (["assign", "assign", "assign", "poke", "fill"] if with_assign else []))
         rows = store.val(x)
         n, m = len(rows), max([len(r) for r in rows], default=0)
         if kind == "select":
@@ -68,8 +69,12 @@ def gen_program(rng, n_stmts, max_rows=4, max_len=4, with_assign=True, chain=Fal
             same = [i for i in live if [len(r) for r in store.val(i)] == [len(r) for r in rows]]
             y = rng.choice(same) if (kind == "add_arrays" and rng.random() < 0.85) else rng.choice(live)
             add({"s": kind, "x": x, "y": y})
-        elif kind in ("sort", "cumsum", "diff", "concat1"):
+        elif kind in ("sort", "cumsum", "diff", "concat1", "astype"):
             add({"s": kind, "x": x})
+        elif kind == "fill":
+            add({"s": "fill", "x": x, "v": 700 + fresh() % 50})
+        elif kind == "read_col":
+            add({"s": "read_col", "x": x, "j": rng.randint(0, max(0, m - 1)) if m else 0})
         elif kind == "assign":
             r = ragidx.rowsel_random(n, rng)
             if r["t"] == "list":
@@ -167,8 +172,13 @@ class RefStore:
             if s == "concat":
                 other = self.val(st["y"])
                 return self.alloc([list(r) for r in rows] + [list(r) for r in other])
-            if s == "concat1":          # np.concatenate([x]): a new array with the same rows
+            if s in ("concat1", "astype"):   # np.concatenate([x]) / x.astype(x.dtype): a new array with the same rows
                 return self.alloc([list(r) for r in rows])
+            if s == "fill":
+                self.cells[self.vars[st["x"]]] = [[st["v"]] * len(r) for r in rows]
+                return True
+            if s == "read_col":
+                return [r[st["j"]] for r in rows if len(r) > st["j"]]
             if s == "sort":
                 return self.alloc([sorted(r) for r in rows])
             if s == "cumsum":
@@ -202,9 +212,9 @@ class RefStore:
             if s == "read_meta":
                 return [len(rows), sum(len(r) for r in rows), [len(r) for r in rows]]
         except ragidx.Refused:
-            if s in ("read", "read_idx", "read_sum", "read_meta"):
+            if s in ("read", "read_idx", "read_sum", "read_meta", "read_col"):
                 return "refuse"
-            if s not in ("assign", "poke"):
+            if s not in ("assign", "poke", "fill"):
                 self.vars.append(None)
             return False
         raise ValueError(st)
@@ -265,6 +275,18 @@ def run_real(prog, extra_reads=None, variant=0):
             elif kind == "reduce": a.sum(axis=-1); a.sum()
             elif kind == "nonzero": a.nonzero()
             elif kind == "equals_self": a.equals(a)
+            elif kind == "col_counts": a.col_counts()
+            elif kind == "sum0": a.sum(axis=0)
+            elif kind == "mean0": a.mean(axis=0)
+            elif kind == "colvals":
+                if len(a) and max(a.lengths) > 0: a.get_column_values(0); a.get_column_values(int(max(a.lengths)) - 1)
+            elif kind == "max": a.max(axis=-1); a.argmax(axis=-1)
+            elif kind == "cumsum": np.cumsum(a, axis=-1)
+            elif kind == "sort": a.sort(axis=-1)
+            elif kind == "unique": np.unique(a, axis=-1, return_counts=True)
+            elif kind == "astype": a.astype(a.dtype); a.astype(float)
+            elif kind == "padded": a.as_padded_matrix()
+            elif kind == "lengths": a.lengths; a.shape
         except Exception:
             pass
     for pos, st in enumerate(prog):
@@ -299,6 +321,12 @@ def run_real(prog, extra_reads=None, variant=0):
                 xs.append(np.concatenate([x, y])); trace.append(True)
             elif s == "concat1":
                 xs.append(np.concatenate([x])); trace.append(True)
+            elif s == "astype":
+                xs.append(x.astype(x.dtype)); trace.append(True)
+            elif s == "fill":
+                x.fill(st["v"]); trace.append(True)
+            elif s == "read_col":
+                trace.append([int(v) for v in x.get_column_values(st["j"])])
             elif s == "sort":
                 xs.append(x.sort(axis=-1)); trace.append(True)
             elif s == "cumsum":
@@ -330,10 +358,10 @@ def run_real(prog, extra_reads=None, variant=0):
             elif s == "read_meta":
                 trace.append([int(len(x)), int(x.size), [int(v) for v in x.lengths]])
         except Exception as e:
-            if s in ("read", "read_idx", "read_sum", "read_meta"):
+            if s in ("read", "read_idx", "read_sum", "read_meta", "read_col"):
                 trace.append("refuse")
             else:
-                if s not in ("assign", "poke"):
+                if s not in ("assign", "poke", "fill"):
                     xs.append(None)
                 trace.append(False)
     return trace
